@@ -113,6 +113,17 @@ def replay_sepin_all(inner, open_kind, tok, ch):
     return replay_sep_inside(inner, open_kind, tok, ch)
 
 
+def carry_flags(pre_parse: bool, bol: bool, wsp: bool, supp: bool) -> bool:
+    """
+    post: _
+    """
+    return carry_over(pre_parse, bol, wsp, supp)
+
+
+def replay_carry_flags(pre_parse, bol, wsp, supp):
+    return replay_carry_over(pre_parse, bol, wsp, supp)
+
+
 def nest_begline(o0: bool, o1: bool, o2: bool, o3: bool, o4: bool, o5: bool) -> bool:
     """
     post: _
@@ -299,6 +310,7 @@ def run(rep: C.Report) -> None:
             {
                 "^t_": dict(name="Ob2 table one-step lemmas (|-  |  !  ||  !!  |+  |})", functions=["parser.py:table_row_fn", "parser.py:table_cell_fn", "parser.py:table_hdr_cell_fn", "parser.py:double_vbar_fn", "parser.py:table_caption_fn", "parser.py:table_end_fn"], bounds="all table states with <= 2 closed cells of symbolic kind, optional open cell of symbolic kind with one symbolic content char, optional caption"),
                 "^sepin_": dict(name="Ob8 cell separators (!!, mid-line !, ||) inside an open HTML element / link / template / external link in a cell are text", functions=["parser.py:table_hdr_cell_fn", "parser.py:double_vbar_fn"], bounds="4 construct kinds x data/header cell x 3 tokens x one symbolic preceding character"),
+                "^carry_": dict(name="Ob9 parse() of a table / HTML document does not depend on parser flags left behind by an earlier parse() on the same context (havoc)", engine="E4 havoc via CrossHair", functions=["parser.py:parse_encoded (per-call reset)"], bounds="4 symbolic flags (pre_parse, beginning_of_line, wsp_beginning_of_line, suppress_special); one document with a table (caption, attributes, header and data cells, link) and nested HTML elements"),
                 "^nest_": dict(name="Ob7 beginning-of-line syntax stays disabled while any argument list is being re-parsed (nesting of the disable manager)", functions=["core.py:BegLineDisableManager"], bounds="all well-nested enter/exit sequences of length 6"),
                 "^vargs_": dict(name="Ob6 `|` inside a link / template / parameter reference / parser function closes the current argument (arguments accumulate in written order)", functions=["parser.py:vbar_fn"], bounds="4 node kinds x 0..2 earlier arguments x current argument text of 1..2 symbolic chars"),
                 "^place_": dict(name="Ob5 attributes written on a table, a row or a cell become that node's attribute map", functions=["parser.py:table_check_attrs", "parser.py:table_row_check_attrs", "parser.py:table_cell_fn (attribute separator)", "parser.py:check_for_attributes"], bounds="one attribute, name 1 char (lower or upper case), value 1..2 (thorough 3) symbolic URL-safe chars, three quoting styles; data and header cells"),
